@@ -93,7 +93,7 @@ def task_field(a, env):
         exp = fl.model_op(cfg, op, xm, ym)
         if got != exp:
             bad(op, {"x": None if xm is None else fl.el_json(cfg, xm),
-                     "y": fl.el_json(cfg, ym) if yk == "elem" else ym, "yk": yk}, exp, got)
+                     "y": fl.el_json(cfg, ym) if yk == "elem" else fl.jint(ym), "yk": yk}, exp, got)
 
     # constants
     check("one", None)
@@ -104,7 +104,7 @@ def task_field(a, env):
     else:
         small_exps = [0, 1, 2, 3, q - 1, q]
         more_exps = sorted(set(range(4, 17)) | {p, p * p, q + 1})
-    huge = [2 ** 700 - 1, 2 ** 700 + 1, 2 ** 4400 + 1]
+    huge = [2 ** 700 - 1, 2 ** 700 + 1, 2 ** 4400 + 1, fl.IntSub(q + 2), 10 ** 4400 + 7]
     for i, xm in enumerate(A):
         x = LA[xm]
         check("neg", x, None, xm)
@@ -112,7 +112,7 @@ def task_field(a, env):
         for n in small_exps + (more_exps if i < 12 else []):
             check("pow", x, n, xm, n, "exp")
         if i < (3 if cfg.mc is not None and len(cfg.mc) == 12 else 12):
-            for n in huge:
+            for n in huge if i < 2 else huge[:-1]:
                 check("pow", x, n, xm, n, "exp")
         # x * inv(x) == 1, stated directly with the library's own operators
         r.ev += 1
@@ -413,14 +413,17 @@ def replay_case(cfg, op, args):
         return None if composite(cfg, op, args) else {"observed": "%s fails" % op}
     xm = None if args.get("x") is None else fl.el_from(cfg, args["x"])
     x = None if xm is None else cfg.lib(xm)
-    ym = args.get("y")
+    ym = fl.unjint(args.get("y"))
     y = ym
     if args.get("yk") == "elem":
         ym = fl.el_from(cfg, ym)
         y = cfg.lib(ym)
-    got = fl.run_op(cfg, op, x, y)
     exp = fl.model_op(cfg, op, xm, ym)
-    return None if got == exp else {"expected": exp, "observed": got}
+    for yf in (fl.int_forms(y) if args.get("yk") in ("int", "exp") else [y]):
+        got = fl.run_op(cfg, op, x, yf)
+        if got != exp:
+            return {"expected": exp, "observed": got, "operand_type": type(yf).__name__}
+    return None
 
 
 def replay_op(a):
@@ -492,7 +495,7 @@ def task_full(a, env):
         exp = fl.model_op(cfg, op, xm, ym)
         if got != exp:
             bad(op, {"x": None if xm is None else fl.el_json(cfg, xm),
-                     "y": fl.el_json(cfg, ym) if yk == "elem" else ym, "yk": yk}, exp, got)
+                     "y": fl.el_json(cfg, ym) if yk == "elem" else fl.jint(ym), "yk": yk}, exp, got)
 
     check("one", None)
     check("zero", None)
